@@ -3,7 +3,7 @@
 //! 0.5 from every edge); (B) "measured" set = the same points lifted off their face by deviations 0.02..0.08 varying
 //! from point to point, plus 6 points outside the box whose closest mesh point is on an EDGE, plus one point repeated
 //! bit-for-bit right after itself.  2D reference: closed L-shaped outline and closed 4x3 rectangle; (A) 7 points per edge
-//! strictly inside the edges, (B) the same points offset along the edge normals by varying deviations plus points beyond
+//! strictly inside the edges, (B) the same points offset along the edge normals by varying signed deviations (-0.03..0.03) plus points beyond
 //! convex corners plus one repeated point.  Displacements: identity, translations up to 0.05, rotations up to 3 degrees,
 //! and a tiny one (3e-5, 4e-6 rad); starting guesses: identity, a small non-identity guess, and (3D) guesses with a pitch
 //! of exactly -90 / +90 degrees plus roll (sample set moved so that such a guess is in the basin); both DistMode values.
@@ -185,7 +185,7 @@ fn outline_samples(v: &[Point2], dev: bool) -> Vec<Point2> {
         let n = Vector2::new(e.y, -e.x);
         for j in 1..8 {
             k += 1;
-            let off = if dev { 0.02 + 0.01 * ((k * 3) % 7) as f64 } else { 0.0 };
+            let off = if dev { -0.03 + 0.01 * ((k * 3) % 7) as f64 } else { 0.0 };
             out.push(v[i] + ab * (j as f64 / 8.0) + n * off);
         }
     }
@@ -253,7 +253,7 @@ fn run2(r: &mut Report) {
 }
 
 pub fn run() -> Option<Report> {
-    let mut r = Report::new("3D: box 4x3x2, sample sets A (54 points on the faces) and B (lifted 0.02..0.08 off the faces + 6 edge-closest points + 2 bit-identical repeats), 6 displacements (translations <= 0.05, rotations <= 3 degrees, one of size 3e-5) x 4 starting guesses (identity, small, pitch exactly -90 / +90 degrees plus roll) x {ToPlane, ToPoint}; 2D: closed L outline and 4x3 rectangle, sets A (7 points per edge) and B (offset 0.02..0.08 + 2 corner-closest points + 2 repeats), 6 displacements x 2 guesses; recovery tolerance 1e-6, residual tolerance 1e-9 relative");
+    let mut r = Report::new("3D: box 4x3x2, sample sets A (54 points on the faces) and B (lifted 0.02..0.08 off the faces + 6 edge-closest points + 2 bit-identical repeats), 6 displacements (translations <= 0.05, rotations <= 3 degrees, one of size 3e-5) x 4 starting guesses (identity, small, pitch exactly -90 / +90 degrees plus roll) x {ToPlane, ToPoint}; 2D: closed L outline and 4x3 rectangle, sets A (7 points per edge) and B (offset -0.03..0.03 along the normal + 2 corner-closest points + 2 repeats), 6 displacements x 2 guesses; recovery tolerance 1e-6, residual tolerance 1e-9 relative");
     run3(&mut r);
     run2(&mut r);
     Some(r)
